@@ -110,8 +110,8 @@ class Race(Obligation):
                     except StopIteration as e:
                         return e.value
                 a.gen = whole()
-        for a in acts:          # run each activity's local prefix up to its first shared operation
-            ev = next(a.gen)
+        from t4 import prime
+        prime(acts)          # run each activity's local prefix up to its first shared operation
         steps = run_activities(p, acts)
         return {'h': h, 'acts': acts, 'steps': steps}
 
